@@ -69,6 +69,7 @@ type Exec struct {
 	callCount map[string]int
 	binds map[string]Val
 	relyMode bool
+	relMode bool
 	entryHeld map[string]bool
 	curOwner *Val
 	curInline int
